@@ -533,4 +533,20 @@ pub proof fn lemma_ids_fresh<D>(b: GenericRecordDefinitionBuilder<D>, v: int, i:
 }
 
 } // verus!
+
+// crate-path scaffolding: `crate::record::…` paths used inside extracted functions resolve to the
+// items of this single-file unit
+#[allow(unused_imports)]
+pub mod record {
+    pub mod type_resolver { pub use crate::*; }
+    pub mod type_name { pub use crate::*; }
+    pub mod definition {
+        pub use crate::*;
+        pub mod builder {
+            pub use crate::*;
+            pub mod native { pub use crate::*; pub mod variant { pub use crate::*; } }
+            pub mod generic { pub use crate::*; pub mod variant { pub use crate::*; } }
+        }
+    }
+}
 fn main() {}
